@@ -24,6 +24,7 @@ struct Cfg {
   bool mdl = false;
   std::string mdl_label = "e-";
   int vertex = 0; // 0 none, 1 unique point, 2 exhausted after the first event
+  int nev = 3;    // decays generated
   int gun_n = 0;  // > 0: the user changed the gun's multiplicity (/gun/number n) before the run
   int prev = -1;  // >= 0: index of a configuration the same action object ran first (then SetConfiguration to this one)
   std::string key() const
@@ -34,6 +35,7 @@ struct Cfg {
     if (emin > 0 || emax > 0) s << ":w" << emin << "-" << emax;
     if (mdl) s << ":mdl(" << mdl_label << ")";
     s << ":v" << vertex;
+    if (nev != 3) s << ":n" << nev;
     if (gun_n) s << ":gun" << gun_n;
     if (prev >= 0) s << ":after" << prev;
     return s.str();
@@ -48,6 +50,15 @@ struct ExhaustingVertexGenerator : bxdecay0_g4::VertexGeneratorInterface {
     left--;
     v = G4ThreeVector(-4.0, 5.5, 6.25);
   }
+};
+
+// a vertex generator that hands out a different point at every call (a list of points, a random sampler): decay k must
+// sit, with all its particles, on the k-th point
+struct SequenceVertexGenerator : bxdecay0_g4::VertexGeneratorInterface {
+  int calls = 0;
+  static G4ThreeVector point(int k) { return G4ThreeVector(1.0 + k, -2.0 * k, 5.0 * k + 0.5); }
+  bool HasNextVertex() const override { return true; }
+  void ShootVertex(G4ThreeVector & v) override { v = point(calls++); }
 };
 
 // the core's answer for the same request (public API only), and its events
@@ -139,7 +150,7 @@ static std::vector<Cfg> predecessors()
 
 static std::string run_cfg(const Cfg & c, const std::set<std::string> & bkg, const std::set<std::string> & dbd)
 {
-  const int NEV = 3;
+  const int NEV = c.nev;
   std::vector<std::pair<std::string, std::string>> viol;
   auto V = [&](const std::string & cls, const std::string & text) { if (viol.size() < 6) viol.push_back({c.key() + ":" + cls, text}); };
   Core core = core_run(c, NEV, bkg, dbd);
@@ -162,8 +173,10 @@ static std::string run_cfg(const Cfg & c, const std::set<std::string> & bkg, con
     if (c.gun_n > 0) action.GetParticleGun()->SetNumberOfParticles(c.gun_n);
     bxdecay0_g4::UniquePointVertexGenerator upv(G4ThreeVector(1.0, 2.0, 3.0));
     ExhaustingVertexGenerator exv;
+    SequenceVertexGenerator sqv;
     if (c.vertex == 1) action.SetVertexGenerator(upv);
     if (c.vertex == 2) action.SetVertexGenerator(exv);
+    if (c.vertex == 3) action.SetVertexGenerator(sqv);
     for (int i = 0; i < NEV; i++) {
       G4Event ev;
       bool threw = false;
@@ -199,7 +212,7 @@ static std::string run_cfg(const Cfg & c, const std::set<std::string> & bkg, con
         V("count", "event " + std::to_string(i) + ": " + std::to_string(ev.primaries.size()) + " primaries for " + std::to_string(parts.size()) + " BxDecay0 particles");
         continue;
       }
-      G4ThreeVector vtx = c.vertex == 1 ? G4ThreeVector(1.0, 2.0, 3.0) : (c.vertex == 2 ? G4ThreeVector(-4.0, 5.5, 6.25) : G4ThreeVector(0, 0, 0));
+      G4ThreeVector vtx = c.vertex == 1 ? G4ThreeVector(1.0, 2.0, 3.0) : (c.vertex == 2 ? G4ThreeVector(-4.0, 5.5, 6.25) : (c.vertex == 3 ? SequenceVertexGenerator::point(i) : G4ThreeVector(0, 0, 0)));
       for (size_t k = 0; k < parts.size(); k++) {
         const auto & p = parts[k];
         const auto & q = ev.primaries[k];
@@ -302,6 +315,22 @@ int main(int argc, char ** argv)
           }
         }
   }
+  // longer runs (rare branches: e.g. the zero-energy photon of Kr81, conversion cascades) with and without a vertex
+  // generator that moves from decay to decay
+  for (const char * n : {"Kr81", "Co60", "Bi207+Pb207m", "Bi214+Po214"})
+    for (int seed : {1, 314159})
+      for (int vertex : {0, 3}) {
+        if (!full && seed == 1 && std::string(n) != "Kr81") continue;
+        Cfg c;
+        c.category = "background"; c.nuclide = n; c.seed = seed; c.vertex = vertex; c.nev = full ? 1000 : 200;
+        cfgs.push_back(c);
+      }
+  for (const char * n : {"Mo100", "Cd106"})
+    for (int vertex : {3}) {
+      Cfg c;
+      c.category = "dbd"; c.nuclide = n; c.seed = 7; c.mode = (std::string(n) == "Cd106" ? 9 : 1); c.level = (std::string(n) == "Mo100" ? 2 : 0); c.vertex = vertex; c.nev = 50;
+      cfgs.push_back(c);
+    }
   // the user touching the gun (/gun/number n) and re-configuration of one action object: on a sub-grid of accepted and
   // refused requests
   {
